@@ -259,6 +259,11 @@ func dedupStrings(ss []string) []string {
 // runPath executes one path; returns how it ended.
 func (in *Interp) runPath(pkg *ssa.Package, fn *ssa.Function) (end string) {
 	defer func() {
+		if in.th != nil {
+			in.th.shutdown() // goroutines the program started and never joined
+		}
+	}()
+	defer func() {
 		if r := recover(); r != nil {
 			switch x := r.(type) {
 			case pathEnd:
